@@ -588,6 +588,12 @@ func r5deriveX(c *core.Ctx) {
 		return
 	}
 	pos := fn.Pos()
+	if nNewSeen == 0 && nNewCSeen == 0 && res["constructors"] != nil && strings.HasPrefix(res["constructors"].got, "0 constructor calls") {
+		// no path builds a github.com/wmnsk/milenage object at all: the derivation runs on another Milenage
+		// implementation, which this rule does not model (unrecognised, not wrong)
+		c.SoftUndecided("R5.op/R5.chain: DeriveRESstarAndSetKey does not build the Milenage object of github.com/wmnsk/milenage the rule models; the OP/OPc selection and the f2345/RES* wiring are not decided")
+		return
+	}
 	if nNewSeen == 0 || nNewCSeen == 0 || (res["constructors"] != nil && !res["constructors"].ok) {
 		c.Fail(RO, "tglib.DeriveRESstarAndSetKey:constructors", pos, "expected one milenage.New (OP) and one milenage.NewWithOPc (OPc) call, found them on %d and %d returning paths", nNewSeen, nNewCSeen)
 	} else {
